@@ -52,6 +52,7 @@ import (
 	"github.com/nspcc-dev/neofs-node/pkg/local_object_storage/blobstor/fstree"
 	meta "github.com/nspcc-dev/neofs-node/pkg/local_object_storage/metabase"
 	"github.com/nspcc-dev/neofs-node/pkg/local_object_storage/shard"
+	iec "github.com/nspcc-dev/neofs-node/internal/ec"
 	"github.com/nspcc-dev/neofs-node/pkg/local_object_storage/blobstor/common"
 	"github.com/nspcc-dev/neofs-node/verifharness/bubble"
 	"github.com/nspcc-dev/neofs-node/verifharness/ev"
@@ -77,6 +78,11 @@ const (
 	partFirst, partMiddle, partLast, chainParent = 9, 10, 11, 12
 	kindPart                                     = "part"
 
+	// ids of the one EC object per container: three EC parts and the virtual
+	// parent, whose ID sorts either before (ecLo) or after (ecHi) its parts
+	ecLo, ecPart0, ecPartN, ecHi = 13, 14, 16, 17
+	kindEC                      = "ec-part"
+
 	// fpLatePart: a middle part (tied to its parent only through the first-part
 	// ID) stored after the parent's tombstone reads as removed but gets no garbage
 	// mark and is never collected (reported by builder-list, reproduced here).
@@ -100,6 +106,9 @@ func (k id) String() string { return fmt.Sprintf("c%d/o%d", k.c, k.i) }
 func (k id) oid() oid.ID {
 	var o oid.ID
 	o[0], o[1], o[31] = byte(0x40+k.c), byte(k.i*17+1), byte(k.i+1)
+	if k.i >= ecLo {
+		o[1] = byte(0xe0 + (k.i-ecLo)*4) // after every other ID of the container, in index order
+	}
 	return o
 }
 func (k id) addr() oid.Address { return oid.NewAddress(uni.Cnr(k.c), k.oid()) }
@@ -138,6 +147,19 @@ func build(s spec) *object.Object {
 	o.SetVersion(&v)
 	var p []byte
 	switch s.kind {
+	case kindEC:
+		p = payload(s)
+		par := object.New(uni.Cnr(s.id.c), uni.Owner(0))
+		par.SetID(id{s.id.c, s.target}.oid())
+		par.SetVersion(&v)
+		par.SetPayloadSize(21)
+		par.SetPayloadChecksum(checksum.NewSHA256(sha256.Sum256([]byte("ec-whole"))))
+		o.SetParent(par)
+		o.SetParentID(par.GetID())
+		o.SetAttributes(
+			object.NewAttribute(iec.AttributeRuleIdx, "0"),
+			object.NewAttribute(iec.AttributePartIdx, strconv.Itoa(s.id.i-ecPart0)),
+		)
 	case kindPart:
 		p = payload(s)
 		if s.id.i != partFirst {
@@ -271,6 +293,13 @@ type world struct {
 	// chainTomb[c]: a tombstone for the chain parent of container c was accepted
 	chainTomb map[int]bool
 	latePart  bool
+	// EC object: parent ID sorts before its parts when ecParentFirst; ecGone[c]: the
+	// parent was tombstoned / force-marked; ecRace: that happened with the parent
+	// first, a small batch and at least `batch` parts stored (parent and parts
+	// necessarily land in different GC batches)
+	ecParentFirst bool
+	ecGone        map[int]bool
+	ecRace        bool
 	blobs     []*faultstore.Store
 	// raced: a GC pass ran inside the write-cache flush window (class of fpFlushRace)
 	raced bool
@@ -292,16 +321,17 @@ func (w *world) stuckParents() []string {
 		}
 		for _, bin := range bins {
 			for c := 0; c < nCnr; c++ {
-				p := id{c, chainParent}
 				if bin.Container != uni.Cnr(c) {
 					continue
 				}
-				for _, o := range bin.Objects {
-					if o != p.oid() {
-						continue
-					}
-					if st, _ := sh.VerifMetaStatus(p.addr()); len(st.HeaderIndex) > 0 {
-						res = append(res, fmt.Sprintf("shard %d: parent header %s state=%v is returned by GetGarbage on every pass", n, p, st.State))
+				for _, p := range []id{{c, chainParent}, {c, ecLo}, {c, ecHi}} {
+					for _, o := range bin.Objects {
+						if o != p.oid() {
+							continue
+						}
+						if st, _ := sh.VerifMetaStatus(p.addr()); len(st.HeaderIndex) > 0 {
+							res = append(res, fmt.Sprintf("shard %d: parent header %s state=%v is returned by GetGarbage on every pass", n, p, st.State))
+						}
 					}
 				}
 			}
@@ -574,6 +604,105 @@ func (w *world) actChainTomb() {
 	}
 }
 
+func (w *world) ecParent() int {
+	if w.ecParentFirst {
+		return ecLo
+	}
+	return ecHi
+}
+
+// actECPart stores one EC part (it carries the parent header, like real EC parts).
+func (w *world) actECPart() {
+	t := w.t
+	c := w.liveCnr()
+	var free []int
+	for i := ecPart0; i <= ecPartN; i++ {
+		if _, used := w.objs[id{c, i}]; !used {
+			free = append(free, i)
+		}
+	}
+	if len(free) == 0 {
+		t.Skip("EC object complete")
+	}
+	if w.ecGone[c] {
+		// a part arriving after its parent was tombstoned / marked: either rejected or
+		// the stale-garbage-mark-on-a-parent-header class; not what this unit is about
+		if ev.IsOpen("C44", fpStuckParent) {
+			w.rec.Known(fpStuckParent)
+			w.rec.Excluded(1)
+		}
+		t.Skip("EC parent already removed")
+	}
+	k := id{c, rapid.SampledFrom(free).Draw(t, "ec-part")}
+	s := spec{kind: kindEC, id: k, exp: -1, plen: 9, target: w.ecParent()}
+	m := &mobj{spec: s}
+	w.objs[k] = m
+	err := w.st.put(build(s))
+	w.logf("put EC part %s (parent o%d) @%d -> %s", k, s.target, w.epoch, errShort(err))
+	if err != nil {
+		m.expect, m.why = expGone, "put rejected"
+		return
+	}
+	m.accepted = true
+	m.expect = expStay
+	if w.pre[k] {
+		m.expect, m.why = expUnknown, "stored after a tombstone/mark for the absent ID"
+	}
+}
+
+// actECRemove tombstones or force-marks the EC parent: the shard marks the
+// parent and all stored parts; when GC later deletes the PARENT address, the
+// metabase removes the remaining parts with it and the shard must drop their blobs.
+func (w *world) actECRemove() {
+	t := w.t
+	c := w.liveCnr()
+	stored := 0
+	for i := ecPart0; i <= ecPartN; i++ {
+		if m := w.objs[id{c, i}]; m != nil && m.accepted && m.expect != expGone {
+			stored++
+		}
+	}
+	if stored == 0 {
+		t.Skip("no EC parts stored")
+	}
+	par := id{c, w.ecParent()}
+	why := ""
+	if rapid.Bool().Draw(t, "by-mark") {
+		err := w.st.mark(par.addr(), meta.GarbageMarkDefault)
+		w.logf("mark EC parent %s @%d -> %s", par, w.epoch, errShort(err))
+		if err != nil {
+			return
+		}
+		why = "EC parent force-marked"
+	} else {
+		k, ok := w.freshID(c)
+		if !ok {
+			t.Skip("container full")
+		}
+		s := spec{kind: uni.Tombstone, id: k, exp: w.expNear(), target: w.ecParent()}
+		m := &mobj{spec: s}
+		w.objs[k] = m
+		err := w.st.put(build(s))
+		w.logf("put %s (EC parent) @%d -> %s", s, w.epoch, errShort(err))
+		if err != nil {
+			m.expect, m.why = expGone, "put rejected"
+			return
+		}
+		m.accepted = true
+		w.setGone(m, "has expiration")
+		why = "EC parent tombstoned by " + k.String()
+	}
+	if !w.ecGone[c] && w.ecParentFirst && stored >= w.batch {
+		w.ecRace = true
+	}
+	w.ecGone[c] = true
+	for i := ecPart0; i <= ecPartN; i++ {
+		if m := w.objs[id{c, i}]; m != nil && m.accepted {
+			w.setGone(m, why)
+		}
+	}
+}
+
 func (w *world) actMark() {
 	t := w.t
 	c := w.liveCnr()
@@ -708,7 +837,7 @@ func (w *world) view() string {
 	b.WriteString(dg)
 	for _, sh := range w.st.shards() {
 		for c := 0; c < nCnr; c++ {
-			for i := 0; i <= chainParent; i++ {
+			for i := 0; i <= ecHi; i++ {
 				exs, err := sh.Exists(id{c, i}.addr(), true)
 				fmt.Fprintf(&b, "|%v:%s", exs, errShort(err))
 			}
@@ -847,8 +976,9 @@ func run(t *rapid.T, rec *ev.Recorder, engineMode bool) {
 		ev.Inconclusive("mkdtemp: %v", err)
 	}
 	defer os.RemoveAll(dir)
-	w := &world{t: t, rec: rec, ep: &stor.Epoch{}, objs: map[id]*mobj{}, pre: map[id]bool{}, rmCnr: map[int]bool{}, chainTomb: map[int]bool{}}
-	w.batch = rapid.IntRange(1, 5).Draw(t, "batch")
+	w := &world{t: t, rec: rec, ep: &stor.Epoch{}, objs: map[id]*mobj{}, pre: map[id]bool{}, rmCnr: map[int]bool{}, chainTomb: map[int]bool{}, ecGone: map[int]bool{}}
+	w.batch = rapid.SampledFrom([]int{1, 1, 2, 2, 3, 3, 4, 5}).Draw(t, "batch")
+	w.ecParentFirst = rapid.IntRange(0, 2).Draw(t, "ec-parent-first") != 0
 	w.wc = rapid.IntRange(0, 3).Draw(t, "write-cache") == 0
 	fsto := []fstree.Option{fstree.WithCombinedWriteInterval(200_000)} // 0.2 ms
 	if w.wc {
@@ -928,6 +1058,12 @@ func run(t *rapid.T, rec *ev.Recorder, engineMode bool) {
 		if w.latePart {
 			labels = append(labels, "part-after-parent-tombstone")
 		}
+		if len(w.ecGone) > 0 {
+			labels = append(labels, "ec-parent-removed")
+		}
+		if w.ecRace {
+			labels = append(labels, "ec-parent-before-parts&small-batch")
+		}
 		if nontrivial {
 			labels = append(labels, "garbage>batch")
 		}
@@ -946,6 +1082,14 @@ func run(t *rapid.T, rec *ev.Recorder, engineMode bool) {
 		"put-tombston2": func(*rapid.T) { w.actPut(uni.Tombstone) },
 		"mark":          func(*rapid.T) { w.actMark() },
 		"put-part":      func(*rapid.T) { w.actPart() },
+		"put-ec":        func(*rapid.T) { w.actECPart() },
+		"put-ec2":       func(*rapid.T) { w.actECPart() },
+		"ec-remove": func(t *rapid.T) {
+			if rapid.IntRange(0, 1).Draw(t, "really") != 0 {
+				t.Skip("sometimes")
+			}
+			w.actECRemove()
+		},
 		"chain-tomb": func(t *rapid.T) {
 			if rapid.IntRange(0, 1).Draw(t, "really") != 0 {
 				t.Skip("sometimes")
